@@ -13,7 +13,9 @@ PROPERTY = "C01"
 LEVEL = "exploration"
 RULE = ("a case = shared link settings (channel, rate, CRC, address width, legal ARD, auto-ack, ask_no_ack), receiving pipe "
         "0..5 with six distinct pipe addresses, payload mode (dynamic / static L, optionally per-pipe lengths on the "
-        "receiver) and 1..3 send() calls, each a bytes/bytearray buffer of 0..40 bytes or a list/tuple of 1..3 such buffers; "
+        "receiver, per-pipe dynamic masks that agree on the pipes in use, ACK payloads enabled on both ends afterwards), an "
+        "optional pre-history of 1..4 payload-mode / auto-ack / ACK-payload calls on both ends that the configuration "
+        "overrides, and 1..3 send() calls, each a bytes/bytearray buffer of 0..40 bytes or a list/tuple of 1..3 such buffers; "
         "non-trivial = at least one payload delivered AND (static mode with len != L, or pipe >= 2, or list input, or a "
         "bytearray argument); distinct = SHA-1 of the case JSON")
 ASSUMPTIONS = ["delivery is asserted only for compatibly configured ends (DESIGN 2.6); the medium is loss-free",
@@ -46,6 +48,17 @@ def pipe_addresses(case):
 def configure(case, lk):
     tx, rx = lk.tx, lk.rx
     lite_t, lite_r = lk.tx_kind == "lite", lk.rx_kind == "lite"
+    # configuration history: what both ends had been set to before (another payload mode, ACK payloads, per-pipe
+    # settings); the configuration below overrides all of it, so the ends are configured compatibly whatever came first
+    for op in case.get("pre", ()):
+        for r, lite in ((tx, lite_t), (rx, lite_r)):
+            if lite and (op[0].startswith("set_") or op[0] == "auto_ack" or not isinstance(op[1], (bool, int)) or
+                         (op[0] == "dynamic_payloads" and not isinstance(op[1], bool))):
+                continue
+            if op[0].startswith("set_"):
+                getattr(r, op[0])(op[1], op[2])
+            else:
+                setattr(r, op[0], op[1])
     for r, lite in ((tx, lite_t), (rx, lite_r)):
         r.channel = case["ch"]
         r.data_rate = case["rate"]
@@ -67,6 +80,16 @@ def configure(case, lk):
             rx.payload_length = lens
         else:
             rx.payload_length = L
+    if case.get("dynmask") and not lite_t and not lite_r:
+        # per-pipe payload modes: the transmitter's mode is that of its pipe 0, the receiver's that of the receiving
+        # pipe; the other pipes are set differently
+        mt, mr = case["dynmask"]
+        tx.dynamic_payloads = (mt & 0x3E) | int(dyn)
+        rx.dynamic_payloads = (mr & ~(1 << case["pipe"]) & 0x3F) | (int(dyn) << case["pipe"])
+    if case.get("ackmode"):
+        # ACK payloads enabled on both ends AFTER the payload mode was chosen: pipe 0 becomes dynamic (documented)
+        tx.ack = True
+        rx.ack = True
     addrs = pipe_addresses(case)
     for p in range(6):
         rx.open_rx_pipe(p, addrs[p])
@@ -96,7 +119,7 @@ def run_threaded(case, P):
     lk = Link(case.get("drv", "full"), case.get("peer", "full"), mcu=case.get("mcu"))
     sim, T, R, tx, rx = lk.sim, lk.T, lk.R, lk.tx, lk.rx
     configure(case, lk)
-    dyn, L, pipe = bool(case["dyn"]), case["plen"], case["pipe"]
+    dyn, L, pipe = bool(case["dyn"]) or bool(case.get("ackmode")), case["plen"], case["pipe"]
     bufs = [unhex(h) for h, _t in case["calls"][0]["items"]]
     exps = [expected_payload(b, dyn, L, lk.tx_kind == "lite") for b in bufs]
     if any(e is None or e == "either" for e in exps):
@@ -168,7 +191,7 @@ def run_case(case, prefix=None):
     lite_t = lk.tx_kind == "lite"
     configure(case, lk)
     sim.advance(500 * US)
-    dyn, L, pipe, ana = bool(case["dyn"]), case["plen"], case["pipe"], bool(case["ana"])
+    dyn, L, pipe, ana = bool(case["dyn"]) or bool(case.get("ackmode")), case["plen"], case["pipe"], bool(case["ana"])
     delivered_any = False
     sim.horizon = sim.now + 2000 * MS
     addrs = pipe_addresses(case)
@@ -301,6 +324,10 @@ def run_case(case, prefix=None):
               "rate%d" % case["rate"], "aa" if case["aa"] else "noaa")
     if delivered_any:
         res.label("delivered")
+        for k in ("pre", "dynmask", "ackmode"):
+            if case.get(k):
+                res.label("delivered-with-" + k)
+                res.nontrivial = True
     return res
 
 
@@ -347,7 +374,22 @@ def strategy(drv="full", peer="full"):
                      "seed": draw(st.integers(0, 999))}}
         if not dyn and not lite and draw(st.booleans()):
             c["perpipe"] = [draw(st.integers(1, 32)) for _ in range(6)]
-        if not lite and "perpipe" not in c and draw(st.integers(0, 1)) == 0:
+        if draw(st.integers(0, 2)) == 0:
+            bits = st.one_of(st.booleans(), st.integers(0, 0x3F))
+            n132 = st.integers(1, 32)
+            c["pre"] = draw(st.lists(st.one_of(
+                st.tuples(st.just("dynamic_payloads"), bits), st.tuples(st.just("payload_length"), n132),
+                st.tuples(st.just("ack"), st.booleans()), st.tuples(st.just("auto_ack"), bits),
+                st.tuples(st.just("set_auto_ack"), st.booleans(), st.integers(0, 5)),
+                st.tuples(st.just("set_dynamic_payloads"), st.booleans(), st.integers(0, 5)),
+                st.tuples(st.just("set_payload_length"), n132, st.integers(0, 5))).map(list), min_size=1, max_size=4))
+        if not lite and draw(st.integers(0, 3)) == 0:
+            c["dynmask"] = [draw(st.integers(0, 0x3F)), draw(st.integers(0, 0x3F))]
+        if aa and "dynmask" not in c and draw(st.integers(0, 4)) == 0:
+            c["ackmode"] = True
+            c["pipe"] = 0
+        # (the reverse direction of a ping-pong would need the mirrored per-pipe modes: not combined)
+        if not lite and "perpipe" not in c and "dynmask" not in c and "ackmode" not in c and draw(st.integers(0, 1)) == 0:
             ra = bytearray(draw(st.binary(min_size=5, max_size=5)))
             ra[1] = a1[1] ^ a0[1] ^ draw(st.integers(1, 255)) if (a1[1] ^ a0[1]) else a1[1] ^ 0x33
             if ra[1] in (a0[1], a1[1]):
